@@ -168,6 +168,12 @@ fn gen_impl_delegation_trait_defs(
                             syn::parse_quote! {
                                 __impl: #and #lifetime ::#entrait::Impl<EntraitT>
                             }
+                        } else if let syn::Type::Reference(type_ref) = receiver.ty.as_ref() {
+                            // typed receiver: `self: &Self`
+                            let lifetime = &type_ref.lifetime;
+                            syn::parse_quote! {
+                                __impl: & #lifetime ::#entrait::Impl<EntraitT>
+                            }
                         } else {
                             syn::parse_quote! {
                                 __impl: ::#entrait::Impl<EntraitT>
